@@ -53,6 +53,7 @@ def checkLine (line : String) : Verdict × String × Nat × Nat :=
       | ["wt"], [_, data, stats] => oracleWeighted data stats
       | ["qsmall"], [_, p, xs, out] => (oracleQSmall p xs out).map (·, 1, 0)
       | ["psq"], [_, p, xs, st] => (oraclePSq p xs st).map (·, 1, 0)
+      | ["psqgen"], [_, p, g, st] => (oraclePSqGen p g st).map (·, 1, 0)
       | ["hfind"], [_, r, x, res] => (oracleHFind r x res).map (·, 1, 0)
       | ["hfrom", l], [_, lst, res] => do let L ← l.toNat?; (oracleHFrom L lst res).map (·, 1, 0)
       | ["hcw", l], [_, se, ed] => do let L ← l.toNat?; (oracleHCW L se ed).map (·, 1, 0)
